@@ -1,6 +1,7 @@
 import ChiModel.LogLikS1
 import ChiModel.SensSwitch
 import ChiProofs.Props.C04
+import ChiProofs.Props.C05
 import Mathlib.Analysis.Calculus.FDeriv.Comp
 import Mathlib.Analysis.Calculus.Deriv.Comp
 set_option linter.unusedSectionVars false
@@ -943,4 +944,497 @@ example : let f : OutFn := { n := 1, obs := fun _ => 1, Y := fun ψ _ => ψ 0, S
     exact hasDerivAt_id' (2:ℝ)
   · simp [InSupport, sliceFor, EM.nParams]
   · simp [errStartOf]
+end ChiModel
+
+/-! ### the whole vector as a gradient along curves (the hypothesis of C05's population-level theorems) -/
+namespace ChiModel
+open ScalarFns
+
+/-- `emDPsi` is linear in the sensitivities: a directional derivative of the predictions with velocity
+    `Σ_k S j k · v k` contributes `Σ_k (∂/∂ψ_k) · v k` -/
+theorem emDPsi_linear (m : EM) (sg : List ℝ) (n : Nat) (yb ob : Nat → ℝ) (S : Nat → Nat → ℝ)
+    (nMech : Nat) (v : Nat → ℝ) :
+    emDPsi m sg n yb ob (fun j _ => ∑ k ∈ Finset.range nMech, S j k * v k) 0
+      = ∑ k ∈ Finset.range nMech, emDPsi m sg n yb ob S k * v k := by
+  unfold emDPsi
+  cases m
+  · simp only [gaussDPsi, isum_eq, Finset.mul_sum, Finset.sum_div, Finset.sum_mul]
+    rw [Finset.sum_comm]
+    refine Finset.sum_congr rfl fun k _ => Finset.sum_congr rfl fun j _ => by ring
+  · simp only [multDPsi, isum_eq, Finset.mul_sum, Finset.sum_div, Finset.sum_mul, Finset.sum_add_distrib,
+      Finset.sum_sub_distrib, sub_mul, add_mul]
+    congr 1
+    congr 1
+    · rw [Finset.sum_comm]
+      refine Finset.sum_congr rfl fun k _ => Finset.sum_congr rfl fun j _ => by ring
+    · rw [Finset.sum_comm]
+      refine Finset.sum_congr rfl fun k _ => Finset.sum_congr rfl fun j _ => by ring
+    · rw [Finset.sum_comm]
+      refine Finset.sum_congr rfl fun k _ => Finset.sum_congr rfl fun j _ => by ring
+  · simp only [cmDPsi, isum_eq, Finset.mul_sum, Finset.sum_div, Finset.sum_mul, Finset.sum_add_distrib,
+      Finset.sum_sub_distrib, sub_mul, add_mul]
+    congr 1
+    congr 1
+    · rw [Finset.sum_comm]
+      refine Finset.sum_congr rfl fun k _ => Finset.sum_congr rfl fun j _ => by ring
+    · rw [Finset.sum_comm]
+      refine Finset.sum_congr rfl fun k _ => Finset.sum_congr rfl fun j _ => by ring
+    · rw [Finset.sum_comm]
+      refine Finset.sum_congr rfl fun k _ => Finset.sum_congr rfl fun j _ => by ring
+  · simp only [lnDPsi, isum_eq, Finset.mul_sum, Finset.sum_div, Finset.sum_mul]
+    rw [Finset.sum_comm]
+    refine Finset.sum_congr rfl fun k _ => Finset.sum_congr rfl fun j _ => by ring
+
+end ChiModel
+
+namespace ChiModel
+open ScalarFns
+
+/-- the error-parameter part of an individual's parameter row, as the list `LogLikelihood` slices -/
+def sigOf (nMech nErr : Nat) (p : Nat → ℝ) : List ℝ := (List.range nErr).map (fun q => p (nMech + q))
+
+theorem sigOf_getD (nMech nErr : Nat) (p : Nat → ℝ) (i : Nat) (hi : i < nErr) :
+    (sigOf nMech nErr p).getD i 0 = p (nMech + i) := by
+  simp [sigOf, List.getD_eq_getElem?_getD, hi]
+
+theorem errStartOf_succ (ems : List EM) (o : Nat) (ho : o < ems.length) :
+    errStartOf ems (o + 1) = errStartOf ems o + (ems.getD o .gauss).nParams := by
+  unfold errStartOf
+  rw [List.take_add_one, List.map_append, List.sum_append]
+  simp [List.getD_eq_getElem?_getD, List.getElem?_eq_getElem ho]
+
+theorem errStartOf_mono (ems : List EM) (o : Nat) (ho : o < ems.length) :
+    errStartOf ems o + (ems.getD o .gauss).nParams ≤ errStartOf ems ems.length :=
+  errStartOf_succ_le ems o ems.length ho ho
+
+/-- entry `e` of output `o`'s slice of the row's error part is the row's entry `n_mech + start(o) + e` -/
+theorem slice_sigOf_getD (nMech : Nat) (ems : List EM) (p : Nat → ℝ) (o e : Nat) (ho : o < ems.length)
+    (he : e < (ems.getD o .gauss).nParams) :
+    (sliceFor ems (sigOf nMech (errStartOf ems ems.length) p) o).getD e 0 = p (nMech + (errStartOf ems o + e)) := by
+  rw [sliceFor_getD ems _ o e he, sigOf_getD]
+  have := errStartOf_mono ems o ho
+  omega
+
+/-- beyond its own parameters an output's slice has nothing -/
+theorem slice_getD_beyond (ems : List EM) (sig : List ℝ) (o e : Nat) (he : (ems.getD o .gauss).nParams ≤ e) :
+    (sliceFor ems sig o).getD e 0 = 0 := by
+  have := sliceFor_length_le ems sig o
+  rw [List.getD_eq_getElem?_getD, List.getElem?_eq_none (by omega)]
+  rfl
+
+end ChiModel
+
+namespace ChiModel
+open ScalarFns
+
+/-- what the mechanistic model has to provide: along every curve of the parameter row through `p0` whose first
+    `n_mech` coordinates are differentiable, prediction `j` moves with velocity `Σ_k S j k · c'_k` -/
+def OutFn.Smooth (f : OutFn) (nMech : Nat) (p0 : Nat → ℝ) : Prop :=
+  ∀ (c : Nat → ℝ → ℝ) (c' : Nat → ℝ) (t : ℝ), (∀ q, c q t = p0 q) →
+    (∀ k, k < nMech → HasDerivAt (c k) (c' k) t) →
+    ∀ j, j < f.n → HasDerivAt (fun s => f.Y (fun q => c q s) j)
+      (∑ k ∈ Finset.range nMech, f.S j k * c' k) t
+
+/-- the velocity of one output's term along a curve of the whole row -/
+noncomputable def outVel (nMech : Nat) (ems : List EM) (sig : List ℝ) (p0 c' : Nat → ℝ) (f : OutFn) (o : Nat) : ℝ :=
+  emDSig (ems.getD o .gauss) (sliceFor ems sig o) f.n (f.Y p0) f.obs 0 * c' (nMech + (errStartOf ems o + 0))
+    + (if ems.getD o .gauss = .cm then
+        emDSig (ems.getD o .gauss) (sliceFor ems sig o) f.n (f.Y p0) f.obs 1 * c' (nMech + (errStartOf ems o + 1))
+       else 0)
+    + ∑ k ∈ Finset.range nMech,
+        emDPsi (ems.getD o .gauss) (sliceFor ems sig o) f.n (f.Y p0) f.obs f.S k * c' k
+
+theorem EM.one_le_nParams (m : EM) : 1 ≤ m.nParams := by cases m <;> simp [EM.nParams]
+theorem EM.nParams_cm {m : EM} (h : m = .cm) : m.nParams = 2 := by subst h; rfl
+theorem EM.nParams_not_cm {m : EM} (h : m ≠ .cm) : m.nParams = 1 := by cases m <;> simp_all [EM.nParams]
+
+theorem llOf_curve_hasDerivAt (nMech : Nat) (ems : List EM) (p0 : Nat → ℝ)
+    (c : Nat → ℝ → ℝ) (c' : Nat → ℝ) (t : ℝ) (hc0 : ∀ q, c q t = p0 q)
+    (hc : ∀ q, q < nMech + errStartOf ems ems.length → HasDerivAt (c q) (c' q) t) :
+    ∀ (fs : List OutFn) (o : Nat), o + fs.length ≤ ems.length →
+    (∀ f ∈ fs, f.Smooth nMech p0) →
+    (∀ p ∈ List.zipIdx fs o, InSupport (ems.getD p.2 .gauss)
+        ((sliceFor ems (sigOf nMech (errStartOf ems ems.length) p0) p.2).getD 0 0)
+        ((sliceFor ems (sigOf nMech (errStartOf ems ems.length) p0) p.2).getD 1 0) p.1.n (p.1.Y p0)) →
+    HasDerivAt (fun s => llOf ems (sigOf nMech (errStartOf ems ems.length) (fun q => c q s)) o fs (fun q => c q s))
+      (((List.zipIdx fs o).map (fun p =>
+          outVel nMech ems (sigOf nMech (errStartOf ems ems.length) p0) p0 c' p.1 p.2)).sum) t
+  | [], o, _, _, _ => by simpa [llOf] using hasDerivAt_const t (0:ℝ)
+  | f :: fs, o, hlen, hsm, hsupp => by
+    have ih := llOf_curve_hasDerivAt nMech ems p0 c c' t hc0 hc fs (o + 1) (by simp at hlen; omega)
+      (fun g hg => hsm g (List.mem_cons_of_mem _ hg))
+      (fun p hp => hsupp p (by simp [List.zipIdx_cons]; exact Or.inr hp))
+    simp only [llOf, List.zipIdx_cons, List.map_cons, List.sum_cons]
+    refine HasDerivAt.add ?_ ih
+    have ho : o < ems.length := by simp at hlen; omega
+    have hmono := errStartOf_mono ems o ho
+    have hnp := EM.one_le_nParams (ems.getD o .gauss)
+    -- the slice entries along the curve
+    have hs0 : ∀ r : Nat → ℝ, (sliceFor ems (sigOf nMech (errStartOf ems ems.length) r) o).getD 0 0
+        = r (nMech + (errStartOf ems o + 0)) :=
+      fun r => slice_sigOf_getD nMech ems r o 0 ho (by omega)
+    have hs1 : ∀ r : Nat → ℝ, (sliceFor ems (sigOf nMech (errStartOf ems ems.length) r) o).getD 1 0
+        = if ems.getD o .gauss = .cm then r (nMech + (errStartOf ems o + 1)) else 0 := by
+      intro r
+      by_cases hcm : ems.getD o .gauss = .cm
+      · rw [if_pos hcm]
+        exact slice_sigOf_getD nMech ems r o 1 ho (by rw [EM.nParams_cm hcm]; omega)
+      · rw [if_neg hcm]
+        exact slice_getD_beyond ems _ o 1 (by rw [EM.nParams_not_cm hcm])
+    have hd0 : HasDerivAt (fun s => c (nMech + (errStartOf ems o + 0)) s) (c' (nMech + (errStartOf ems o + 0))) t :=
+      hc _ (by omega)
+    have hd1 : HasDerivAt (fun s => if ems.getD o .gauss = .cm then c (nMech + (errStartOf ems o + 1)) s else 0)
+        (if ems.getD o .gauss = .cm then c' (nMech + (errStartOf ems o + 1)) else 0) t := by
+      by_cases hcm : ems.getD o .gauss = .cm
+      · simp only [if_pos hcm]
+        have := EM.nParams_cm hcm
+        exact hc _ (by omega)
+      · simp only [if_neg hcm]; exact hasDerivAt_const _ _
+    have hsup := hsupp (f, o) (by simp [List.zipIdx_cons])
+    have hp0 : (fun q => c q t) = p0 := funext hc0
+    have hs0t : (sliceFor ems (sigOf nMech (errStartOf ems ems.length) p0) o).getD 0 0
+        = c (nMech + (errStartOf ems o + 0)) t := by rw [hs0 p0, hc0]
+    have hs1t : (sliceFor ems (sigOf nMech (errStartOf ems ems.length) p0) o).getD 1 0
+        = if ems.getD o .gauss = .cm then c (nMech + (errStartOf ems o + 1)) t else 0 := by rw [hs1 p0, hc0]
+    have h := em_hasDerivAt (ems.getD o .gauss) f.n f.obs (fun s => c (nMech + (errStartOf ems o + 0)) s)
+      (fun s => if ems.getD o .gauss = .cm then c (nMech + (errStartOf ems o + 1)) s else 0)
+      (c' (nMech + (errStartOf ems o + 0)))
+      (if ems.getD o .gauss = .cm then c' (nMech + (errStartOf ems o + 1)) else 0)
+      (fun j s => f.Y (fun q => c q s) j) (fun j => ∑ k ∈ Finset.range nMech, f.S j k * c' k) t
+      hd0 hd1 (fun j hj => hsm f List.mem_cons_self c c' t hc0 (fun k hk => hc k (by omega)) j hj)
+      (by
+        have h2 : InSupport (ems.getD o .gauss) (c (nMech + (errStartOf ems o + 0)) t)
+            (if ems.getD o .gauss = .cm then c (nMech + (errStartOf ems o + 1)) t else 0) f.n (f.Y p0) := by
+          rw [← hs0t, ← hs1t]; exact hsup
+        simpa only [hp0] using h2)
+    have hval : ∀ s, emLLraw (ems.getD o .gauss) [c (nMech + (errStartOf ems o + 0)) s,
+          if ems.getD o .gauss = .cm then c (nMech + (errStartOf ems o + 1)) s else 0] f.n
+          (fun j => f.Y (fun q => c q s) j) f.obs
+        = emLLraw (ems.getD o .gauss) (sliceFor ems (sigOf nMech (errStartOf ems ems.length) (fun q => c q s)) o)
+          f.n (f.Y (fun q => c q s)) f.obs := by
+      intro s
+      exact emLLraw_congr _ _ _ f.n _ f.obs (by rw [hs0]; rfl) (by rw [hs1]; rfl)
+    simp only [hval] at h
+    refine h.congr_deriv ?_
+    have hsl : ∀ e', emDSig (ems.getD o .gauss) [c (nMech + (errStartOf ems o + 0)) t,
+          if ems.getD o .gauss = .cm then c (nMech + (errStartOf ems o + 1)) t else 0] f.n
+          (fun j => f.Y (fun q => c q t) j) f.obs e'
+        = emDSig (ems.getD o .gauss) (sliceFor ems (sigOf nMech (errStartOf ems ems.length) p0) o) f.n (f.Y p0)
+          f.obs e' := by
+      intro e'
+      rw [hp0]
+      exact emDSig_congr _ _ _ f.n _ f.obs e' (by rw [hs0t]; rfl) (by rw [hs1t]; rfl)
+    have hpsi : emDPsi (ems.getD o .gauss) [c (nMech + (errStartOf ems o + 0)) t,
+          if ems.getD o .gauss = .cm then c (nMech + (errStartOf ems o + 1)) t else 0] f.n
+          (fun j => f.Y (fun q => c q t) j) f.obs
+          (fun j _ => ∑ k ∈ Finset.range nMech, f.S j k * c' k) 0
+        = ∑ k ∈ Finset.range nMech, emDPsi (ems.getD o .gauss)
+            (sliceFor ems (sigOf nMech (errStartOf ems ems.length) p0) o) f.n (f.Y p0) f.obs f.S k * c' k := by
+      rw [emDPsi_linear, hp0]
+      refine Finset.sum_congr rfl fun k _ => ?_
+      congr 1
+      unfold emDPsi
+      simp only [ofNat_real, Nat.cast_zero, List.getD_cons_zero, List.getD_cons_succ, ← hs0t, ← hs1t]
+    rw [hsl, hsl, hpsi]
+    unfold outVel
+    by_cases hcm : ems.getD o .gauss = .cm
+    · simp only [if_pos hcm]
+    · simp only [if_neg hcm]
+
+end ChiModel
+
+namespace ChiModel
+open ScalarFns
+
+theorem sum_list_finset_swap {β : Type} (A : β → Nat → ℝ) (v : Nat → ℝ) (n : Nat) :
+    ∀ l : List β, ∑ k ∈ Finset.range n, (l.map (fun p => A p k)).sum * v k
+      = (l.map (fun p => ∑ k ∈ Finset.range n, A p k * v k)).sum
+  | [] => by simp
+  | b :: bs => by
+    simp only [List.map_cons, List.sum_cons, add_mul, Finset.sum_add_distrib, sum_list_finset_swap A v n bs]
+
+/-- weighted sum over a concatenation of blocks, block by block -/
+noncomputable def blockSum {β : Type} (f : β → List ℝ) (w : Nat → ℝ) : Nat → List β → ℝ
+  | _, [] => 0
+  | s, b :: bs => (∑ e ∈ Finset.range (f b).length, (f b).getD e 0 * w (s + e)) + blockSum f w (s + (f b).length) bs
+
+theorem sum_flatMap_weighted {β : Type} (f : β → List ℝ) (w : Nat → ℝ) :
+    ∀ (l : List β) (s : Nat),
+      ∑ i ∈ Finset.range (l.flatMap f).length, (l.flatMap f).getD i 0 * w (s + i) = blockSum f w s l
+  | [], s => by simp [blockSum]
+  | b :: bs, s => by
+    simp only [List.flatMap_cons, List.length_append, blockSum]
+    rw [Finset.sum_range_add]
+    congr 1
+    · refine Finset.sum_congr rfl fun i hi => ?_
+      have hi' := Finset.mem_range.mp hi
+      rw [List.getD_eq_getElem?_getD, List.getElem?_append_left hi', ← List.getD_eq_getElem?_getD]
+    · rw [← sum_flatMap_weighted f w bs (s + (f b).length)]
+      refine Finset.sum_congr rfl fun i _ => ?_
+      rw [List.getD_eq_getElem?_getD, List.getElem?_append_right (by omega),
+        show (f b).length + i - (f b).length = i by omega, ← List.getD_eq_getElem?_getD, Nat.add_assoc]
+
+end ChiModel
+
+namespace ChiModel
+open ScalarFns
+
+/-- the error-parameter blocks `evaluateS1` appends, as a function of (output, index) -/
+noncomputable def errBlock (ems : List EM) (sig : List ℝ) (p : OutS1 ℝ × Nat) : List ℝ :=
+  (List.range (ems.getD p.2 .gauss).nParams).map (fun e =>
+    emDSig (ems.getD p.2 .gauss) (sliceFor ems sig p.2) p.1.n p.1.ybar p.1.obs e)
+
+theorem errBlock_sum (ems : List EM) (sig : List ℝ) (w : Nat → ℝ) (p : OutS1 ℝ × Nat) (s : Nat) :
+    ∑ e ∈ Finset.range (errBlock ems sig p).length, (errBlock ems sig p).getD e 0 * w (s + e)
+      = emDSig (ems.getD p.2 .gauss) (sliceFor ems sig p.2) p.1.n p.1.ybar p.1.obs 0 * w (s + 0)
+        + (if ems.getD p.2 .gauss = .cm then
+            emDSig (ems.getD p.2 .gauss) (sliceFor ems sig p.2) p.1.n p.1.ybar p.1.obs 1 * w (s + 1) else 0) := by
+  unfold errBlock
+  by_cases hcm : ems.getD p.2 .gauss = .cm
+  · rw [if_pos hcm]
+    simp only [List.length_map, List.length_range, EM.nParams_cm hcm]
+    rw [Finset.sum_range_succ, Finset.sum_range_one]
+    simp [List.getD_eq_getElem?_getD, EM.nParams_cm hcm]
+  · rw [if_neg hcm]
+    simp only [List.length_map, List.length_range, EM.nParams_not_cm hcm]
+    rw [Finset.sum_range_one]
+    simp [List.getD_eq_getElem?_getD, EM.nParams_not_cm hcm]
+
+theorem blockSum_err (ems : List EM) (sig : List ℝ) (w : Nat → ℝ) :
+    ∀ (outs : List (OutS1 ℝ)) (o : Nat), o + outs.length ≤ ems.length →
+      blockSum (errBlock ems sig) w (errStartOf ems o) (List.zipIdx outs o)
+        = ((List.zipIdx outs o).map (fun p =>
+            emDSig (ems.getD p.2 .gauss) (sliceFor ems sig p.2) p.1.n p.1.ybar p.1.obs 0 * w (errStartOf ems p.2 + 0)
+            + (if ems.getD p.2 .gauss = .cm then
+                emDSig (ems.getD p.2 .gauss) (sliceFor ems sig p.2) p.1.n p.1.ybar p.1.obs 1
+                  * w (errStartOf ems p.2 + 1) else 0))).sum
+  | [], _, _ => by simp [blockSum]
+  | d :: ds, o, h => by
+    have ho : o < ems.length := by simp at h; omega
+    simp only [List.zipIdx_cons, blockSum, List.map_cons, List.sum_cons]
+    rw [errBlock_sum]
+    congr 1
+    have hlen : (errBlock ems sig (d, o)).length = (ems.getD o .gauss).nParams := by simp [errBlock]
+    rw [hlen, ← errStartOf_succ ems o ho]
+    exact blockSum_err ems sig w ds (o + 1) (by simp at h; omega)
+
+end ChiModel
+
+namespace ChiModel
+open ScalarFns
+
+theorem llS1Grad_length (nMech : Nat) (ems : List EM) (sig : List ℝ) (outs : List (OutS1 ℝ)) :
+    (llS1Grad nMech ems sig outs).length
+      = nMech + ((List.zipIdx outs 0).flatMap (errBlock ems sig)).length := by
+  have h := C03_s1_layout nMech ems sig outs
+  have hl := s1Go_mech_length nMech ems sig outs 0 ((List.range nMech).map (fun _ => (ofNat 0 : ℝ))) []
+    (by simp)
+  have h2 : (llS1Grad nMech ems sig outs).length
+      = ((llS1Grad nMech ems sig outs).take nMech).length + ((llS1Grad nMech ems sig outs).drop nMech).length := by
+    simp; omega
+  rw [h2, h.1, h.2, hl]
+  rfl
+
+/-- **C03 (individual likelihood, end to end, as a gradient).** Along ANY differentiable curve of the whole
+    parameter row `(ψ, σ)` through the evaluation point, the evaluated log-likelihood moves with velocity
+    `Σ_q G_q · c'_q`, `G` the vector `LogLikelihood.evaluateS1` assembles — i.e. `G` is the gradient in the sense
+    `HasGradientAt` of C05, which is the hypothesis (`hL`) of the population-level theorems
+    `C05_*_reduce_is_gradient`: together they give the hierarchical gradient end to end. -/
+theorem C03_s1_is_gradient (nMech : Nat) (ems : List EM) (fs : List OutFn) (p0 : Nat → ℝ)
+    (hlen : fs.length = ems.length) (hsm : ∀ f ∈ fs, f.Smooth nMech p0)
+    (hsupp : ∀ p ∈ List.zipIdx fs 0, InSupport (ems.getD p.2 .gauss)
+        ((sliceFor ems (sigOf nMech (errStartOf ems ems.length) p0) p.2).getD 0 0)
+        ((sliceFor ems (sigOf nMech (errStartOf ems ems.length) p0) p.2).getD 1 0) p.1.n (p.1.Y p0))
+    (c : Nat → ℝ → ℝ) (c' : Nat → ℝ) (t : ℝ) (hc0 : ∀ q, c q t = p0 q)
+    (hc : ∀ q, q < nMech + errStartOf ems ems.length → HasDerivAt (c q) (c' q) t) :
+    let G := llS1Grad nMech ems (sigOf nMech (errStartOf ems ems.length) p0) (fs.map (fun f => f.at p0))
+    HasDerivAt (fun s => llOf ems (sigOf nMech (errStartOf ems ems.length) (fun q => c q s)) 0 fs (fun q => c q s))
+      (∑ q ∈ Finset.range G.length, G.getD q 0 * c' q) t := by
+  intro G
+  have h := llOf_curve_hasDerivAt nMech ems p0 c c' t hc0 hc fs 0 (by omega) hsm hsupp
+  refine h.congr_deriv ?_
+  set sig := sigOf nMech (errStartOf ems ems.length) p0 with hsig
+  set outs := fs.map (fun f => f.at p0) with houts
+  -- split the gradient into its two blocks
+  rw [show G.length = nMech + ((List.zipIdx outs 0).flatMap (errBlock ems sig)).length from
+    llS1Grad_length nMech ems sig outs, Finset.sum_range_add]
+  -- mechanistic block
+  have hmech : ∑ k ∈ Finset.range nMech, G.getD k 0 * c' k
+      = ((List.zipIdx fs 0).map (fun p => ∑ k ∈ Finset.range nMech,
+          emDPsi (ems.getD p.2 .gauss) (sliceFor ems sig p.2) p.1.n (p.1.Y p0) p.1.obs p.1.S k * c' k)).sum := by
+    rw [← sum_list_finset_swap]
+    refine Finset.sum_congr rfl fun k hk => ?_
+    rw [show G.getD k 0 = _ from C03_s1_mech_entry nMech ems sig outs k (Finset.mem_range.mp hk)]
+    rw [houts, List.zipIdx_map, List.map_map]
+    rfl
+  -- error block
+  have herr : ∑ i ∈ Finset.range ((List.zipIdx outs 0).flatMap (errBlock ems sig)).length,
+        G.getD (nMech + i) 0 * c' (nMech + i)
+      = ((List.zipIdx fs 0).map (fun p =>
+          emDSig (ems.getD p.2 .gauss) (sliceFor ems sig p.2) p.1.n (p.1.Y p0) p.1.obs 0
+              * c' (nMech + (errStartOf ems p.2 + 0))
+          + (if ems.getD p.2 .gauss = .cm then
+              emDSig (ems.getD p.2 .gauss) (sliceFor ems sig p.2) p.1.n (p.1.Y p0) p.1.obs 1
+                * c' (nMech + (errStartOf ems p.2 + 1)) else 0))).sum := by
+    have hdrop : ∀ i, G.getD (nMech + i) 0 = ((List.zipIdx outs 0).flatMap (errBlock ems sig)).getD i 0 := by
+      intro i
+      have := (C03_s1_layout nMech ems sig outs).2
+      rw [show ((List.zipIdx outs 0).flatMap (errBlock ems sig)) = (llS1Grad nMech ems sig outs).drop nMech from
+        this.symm]
+      simp only [List.getD_eq_getElem?_getD, List.getElem?_drop]
+      rfl
+    simp only [hdrop]
+    have hw := sum_flatMap_weighted (errBlock ems sig) (fun i => c' (nMech + i)) (List.zipIdx outs 0) 0
+    simp only [Nat.zero_add] at hw
+    rw [hw]
+    have hb := blockSum_err ems sig (fun i => c' (nMech + i)) outs 0 (by simp [houts]; omega)
+    rw [show errStartOf ems 0 = 0 by simp [errStartOf]] at hb
+    rw [hb, houts, List.zipIdx_map, List.map_map]
+    rfl
+  rw [hmech, herr, ← List.sum_map_add]
+  refine congrArg List.sum (List.map_congr_left fun p _ => ?_)
+  unfold outVel
+  ring
+
+end ChiModel
+
+namespace ChiModel
+/-- non-vacuity of `OutFn.Smooth`: predictions that are linear in `ψ` meet it with their coefficients as
+    sensitivities -/
+example (nMech n : Nat) (a : Nat → Nat → ℝ) (ob : Nat → ℝ) (p0 : Nat → ℝ) :
+    OutFn.Smooth { n := n, obs := ob, Y := fun ψ j => ∑ k ∈ Finset.range nMech, a j k * ψ k, S := a } nMech p0 := by
+  intro c c' t _ hc j _
+  exact HasDerivAt.fun_sum fun k hk => (hc k (Finset.mem_range.mp hk)).const_mul (a j k)
+end ChiModel
+
+/-! ### hierarchical likelihood, end to end (with C05's population-level theorems) -/
+namespace ChiModel
+open ScalarFns
+
+theorem errFlat_length (ems : List EM) (sig : List ℝ) :
+    ∀ (outs : List (OutS1 ℝ)) (o : Nat), o + outs.length ≤ ems.length →
+      errStartOf ems o + ((List.zipIdx outs o).flatMap (errBlock ems sig)).length = errStartOf ems (o + outs.length)
+  | [], o, _ => by simp
+  | d :: ds, o, h => by
+    have ho : o < ems.length := by simp at h; omega
+    have ih := errFlat_length ems sig ds (o + 1) (by simp at h; omega)
+    simp only [List.zipIdx_cons, List.flatMap_cons, List.length_append, List.length_cons]
+    have hb : (errBlock ems sig (d, o)).length = (ems.getD o .gauss).nParams := by simp [errBlock]
+    rw [hb, show o + (ds.length + 1) = o + 1 + ds.length by omega, ← ih, errStartOf_succ ems o ho]
+    omega
+
+/-- the vector `evaluateS1` assembles has one entry per parameter of the individual's row -/
+theorem llS1Grad_length_eq (nMech : Nat) (ems : List EM) (sig : List ℝ) (outs : List (OutS1 ℝ))
+    (h : outs.length = ems.length) :
+    (llS1Grad nMech ems sig outs).length = nMech + errStartOf ems ems.length := by
+  rw [llS1Grad_length]
+  have := errFlat_length ems sig outs 0 (by omega)
+  simp only [Nat.zero_add, h] at this
+  rw [show errStartOf ems 0 = 0 by simp [errStartOf]] at this
+  omega
+
+/-- one individual of a hierarchical likelihood: its outputs as functions of its own parameter row -/
+structure Indiv where
+  fs : List OutFn
+
+/-- the sum of the individuals' log-likelihoods as a function of the matrix of bottom-level parameters -/
+noncomputable def hierL (nMech : Nat) (ems : List EM) (inds : Nat → Indiv) (nIds : Nat)
+    (psi : Nat → Nat → ℝ) : ℝ :=
+  isum nIds (fun i => llOf ems (sigOf nMech (errStartOf ems ems.length) (psi i)) 0 (inds i).fs (psi i))
+
+/-- **C03 (hierarchical likelihood, end to end, the individuals' part).** The matrix whose row `i` is the vector
+    `evaluateS1` of individual `i` assembles is the gradient — in the sense `HasGradientAt` that C05's
+    population-level theorems take as hypothesis — of the sum of the individuals' log-likelihoods, as a function
+    of the `n_ids × n_dim` matrix of bottom-level parameters (`n_dim = n_mech + n_error`). -/
+theorem C03_hier_upstream_is_gradient (nMech : Nat) (ems : List EM) (inds : Nat → Indiv) (nIds : Nat)
+    (x : Nat → Nat → ℝ)
+    (hlen : ∀ i, i < nIds → (inds i).fs.length = ems.length)
+    (hsm : ∀ i, i < nIds → ∀ f ∈ (inds i).fs, f.Smooth nMech (x i))
+    (hsupp : ∀ i, i < nIds → ∀ p ∈ List.zipIdx (inds i).fs 0, InSupport (ems.getD p.2 .gauss)
+        ((sliceFor ems (sigOf nMech (errStartOf ems ems.length) (x i)) p.2).getD 0 0)
+        ((sliceFor ems (sigOf nMech (errStartOf ems ems.length) (x i)) p.2).getD 1 0) p.1.n (p.1.Y (x i))) :
+    HasGradientAt nIds (nMech + errStartOf ems ems.length) (hierL nMech ems inds nIds)
+      (fun i d => (llS1Grad nMech ems (sigOf nMech (errStartOf ems ems.length) (x i))
+        ((inds i).fs.map (fun f => f.at (x i)))).getD d 0) x := by
+  intro c c' t hc0 hc
+  unfold hierL
+  have hmain := hasDerivAt_isum nIds
+    (fun i s => llOf ems (sigOf nMech (errStartOf ems ems.length) (fun d => c i d s)) 0 (inds i).fs (fun d => c i d s))
+    (fun i => ∑ q ∈ Finset.range (nMech + errStartOf ems ems.length),
+      (llS1Grad nMech ems (sigOf nMech (errStartOf ems ems.length) (x i))
+        ((inds i).fs.map (fun f => f.at (x i)))).getD q 0 * c' i q) t
+    (fun i hi => by
+      have h := C03_s1_is_gradient nMech ems (inds i).fs (x i) (hlen i hi) (hsm i hi) (hsupp i hi)
+        (fun q s => c i q s) (fun q => c' i q) t (fun q => hc0 i q) (fun q hq => hc i q hi hq)
+      simp only at h
+      rw [llS1Grad_length_eq nMech ems _ _ (by simp [hlen i hi])] at h
+      exact h)
+  refine hmain.congr_deriv ?_
+  simp [isum2_eq, isum_eq]
+
+end ChiModel
+
+namespace ChiModel
+open ScalarFns
+
+/-- the matrix of the individuals' `evaluateS1` vectors at the bottom-level parameters `x` — what
+    `HierarchicalLogLikelihood.evaluateS1` hands to the population model as `dlogp_dpsi` -/
+noncomputable def upstreamOf (nMech : Nat) (ems : List EM) (inds : Nat → Indiv) (x : Nat → Nat → ℝ) : Nat → Nat → ℝ :=
+  fun i d => (llS1Grad nMech ems (sigOf nMech (errStartOf ems ems.length) (x i))
+    ((inds i).fs.map (fun f => f.at (x i)))).getD d 0
+
+/-- **C03 + C05, end to end (Gaussian population model, centred).** For a hierarchical log-likelihood whose
+    bottom-level parameters are Gaussian distributed, entry `j` of the published gradient vector — individuals'
+    parameters individual-major, then means, then standard deviations — is the partial derivative `∂/∂z_j` of
+    `Σ_i log p(data_i | ψ_i) + log p(ψ | μ, σ)`, for any mechanistic model (smooth in the sense `OutFn.Smooth`), any
+    outputs and error models, any number of individuals and dimensions. -/
+theorem C03_hier_gauss_end_to_end (nMech : Nat) (ems : List EM) (inds : Nat → Indiv) (nIds : Nat) (z : Nat → ℝ)
+    (hlen : ∀ i, i < nIds → (inds i).fs.length = ems.length)
+    (hsm : ∀ i, i < nIds → ∀ f ∈ (inds i).fs,
+      f.Smooth nMech (etaOf (nMech + errStartOf ems ems.length) z i))
+    (hsupp : ∀ i, i < nIds → ∀ p ∈ List.zipIdx (inds i).fs 0, InSupport (ems.getD p.2 .gauss)
+        ((sliceFor ems (sigOf nMech (errStartOf ems ems.length) (etaOf (nMech + errStartOf ems ems.length) z i)) p.2).getD 0 0)
+        ((sliceFor ems (sigOf nMech (errStartOf ems ems.length) (etaOf (nMech + errStartOf ems ems.length) z i)) p.2).getD 1 0)
+        p.1.n (p.1.Y (etaOf (nMech + errStartOf ems ems.length) z i)))
+    (hpos : ∀ d, d < nMech + errStartOf ems ems.length →
+      0 < z (nIds * (nMech + errStartOf ems ems.length) + (nMech + errStartOf ems ems.length) + d))
+    (j : Nat) (hj : j < nIds * (nMech + errStartOf ems ems.length) + 2 * (nMech + errStartOf ems ems.length)) :
+    let nDim := nMech + errStartOf ems ems.length
+    HasDerivAt (fun x => hierL nMech ems inds nIds (etaOf nDim (Function.update z j x))
+        + gaussCLLraw nIds nDim (muOf nIds nDim (Function.update z j x))
+            (sgOf nIds nDim (Function.update z j x)) (etaOf nDim (Function.update z j x)))
+      ((shapeReduce (.gauss true) nIds nDim (popSens (.gauss true) nIds nDim
+        (thOf (muOf nIds nDim z) (sgOf nIds nDim z)) (etaOf nDim z)
+        (some (upstreamOf nMech ems inds (etaOf nDim z))))).getD j 0) (z j) := by
+  intro nDim
+  exact C05_gauss_reduce_is_gradient nIds nDim z (some (upstreamOf nMech ems inds (etaOf nDim z)))
+    (hierL nMech ems inds nIds) hpos
+    (C03_hier_upstream_is_gradient nMech ems inds nIds (etaOf nDim z) hlen hsm hsupp) j hj
+
+/-- the same for log-normally distributed bottom-level parameters (centred) -/
+theorem C03_hier_logn_end_to_end (nMech : Nat) (ems : List EM) (inds : Nat → Indiv) (nIds : Nat) (z : Nat → ℝ)
+    (hlen : ∀ i, i < nIds → (inds i).fs.length = ems.length)
+    (hsm : ∀ i, i < nIds → ∀ f ∈ (inds i).fs,
+      f.Smooth nMech (etaOf (nMech + errStartOf ems ems.length) z i))
+    (hsupp : ∀ i, i < nIds → ∀ p ∈ List.zipIdx (inds i).fs 0, InSupport (ems.getD p.2 .gauss)
+        ((sliceFor ems (sigOf nMech (errStartOf ems ems.length) (etaOf (nMech + errStartOf ems ems.length) z i)) p.2).getD 0 0)
+        ((sliceFor ems (sigOf nMech (errStartOf ems ems.length) (etaOf (nMech + errStartOf ems ems.length) z i)) p.2).getD 1 0)
+        p.1.n (p.1.Y (etaOf (nMech + errStartOf ems ems.length) z i)))
+    (hpos : ∀ d, d < nMech + errStartOf ems ems.length →
+      0 < z (nIds * (nMech + errStartOf ems ems.length) + (nMech + errStartOf ems ems.length) + d))
+    (hppos : ∀ i d, i < nIds → d < nMech + errStartOf ems ems.length →
+      0 < z (i * (nMech + errStartOf ems ems.length) + d))
+    (j : Nat) (hj : j < nIds * (nMech + errStartOf ems ems.length) + 2 * (nMech + errStartOf ems ems.length)) :
+    let nDim := nMech + errStartOf ems ems.length
+    HasDerivAt (fun x => hierL nMech ems inds nIds (etaOf nDim (Function.update z j x))
+        + lognCLLraw nIds nDim (muOf nIds nDim (Function.update z j x))
+            (sgOf nIds nDim (Function.update z j x)) (etaOf nDim (Function.update z j x)))
+      ((shapeReduce (.logn true) nIds nDim (popSens (.logn true) nIds nDim
+        (thOf (muOf nIds nDim z) (sgOf nIds nDim z)) (etaOf nDim z)
+        (some (upstreamOf nMech ems inds (etaOf nDim z))))).getD j 0) (z j) := by
+  intro nDim
+  exact C05_logn_reduce_is_gradient nIds nDim z (some (upstreamOf nMech ems inds (etaOf nDim z)))
+    (hierL nMech ems inds nIds) hpos hppos
+    (C03_hier_upstream_is_gradient nMech ems inds nIds (etaOf nDim z) hlen hsm hsupp) j hj
+
 end ChiModel
